@@ -542,7 +542,29 @@ class Interp:
         except Exception as e:
             raise PyRaise(e)
 
+    _DUNDER = {ast.Add: "add", ast.Sub: "sub", ast.Mult: "mul", ast.Div: "truediv", ast.FloorDiv: "floordiv", ast.Mod: "mod",
+               ast.Pow: "pow", ast.BitOr: "or", ast.BitAnd: "and", ast.BitXor: "xor", ast.MatMult: "matmul",
+               ast.LShift: "lshift", ast.RShift: "rshift"}
+
     def binop(self, op, a, b):
+        a, b = self.resolve(a), self.resolve(b)
+        if isinstance(a, SObj) or isinstance(b, SObj):
+            nm = self._DUNDER.get(op)
+            if nm and isinstance(a, SObj):
+                cls = self.class_of(a)
+                try:
+                    raw = _static_getattr(cls, f"__{nm}__")
+                    return self.call(self._bind_class_attr(raw, a, cls), [b])
+                except AttributeError:
+                    pass
+            if nm and isinstance(b, SObj):
+                cls = self.class_of(b)
+                try:
+                    raw = _static_getattr(cls, f"__r{nm}__")
+                    return self.call(self._bind_class_attr(raw, b, cls), [a])
+                except AttributeError:
+                    pass
+            raise PyRaise(TypeError(f"unsupported operand type(s) for {op.__name__}"))
         if not (isinstance(a, Sym) or isinstance(b, Sym)):
             try:
                 return _BINOPS[op](a, b)
